@@ -69,8 +69,8 @@ def gen_world(rng, npels=None, fault_rate=None):
                            refcode_pool=pool)
         pels.append({"name": common.bmc_name(r), "recipe": r})
     fr = fault_rate if fault_rate is not None else rng.choice([0, 1, 1, 2, 3])
-    ud_w = {"ok": 8, "raise": fr, "none": fr, "importerror": fr, "keyerror": fr // 2, "modulenotfound": fr // 2}
-    src_w = {"ok": 8, "raise": fr, "none": fr, "null": 1, "empty": 1, "importerror": fr, "modulenotfound": fr}
+    ud_w = {"ok": 8, "raise": fr, "none": fr, "importerror": fr, "keyerror": fr // 2, "modulenotfound": fr // 2, "raise_noargs": (fr + 1) // 2}
+    src_w = {"ok": 8, "raise": fr, "none": fr, "null": 1, "empty": 1, "importerror": fr, "modulenotfound": fr, "raise_noargs": (fr + 1) // 2}
     co_w = {"ok": 8, "raise": fr, "none": 1, "empty": 1, "importerror": fr // 2, "modulenotfound": fr // 2}
     plugins = {}
     for c, comp in targets:
